@@ -350,6 +350,16 @@ func TestProp_HostileInputs(t *testing.T) {
 				case "inverted":
 					info.NotBefore, info.NotAfter = info.NotAfter, info.NotBefore
 				}
+				switch pick("bundle-id", "ok", "ok", "ok", "garbage", "registered-node", "path-like", "huge") {
+				case "garbage":
+					info.Id = "no-such-record"
+				case "registered-node":
+					info.Id = e.node.KeyID
+				case "path-like":
+					info.Id = e.pathIDs[rapid.IntRange(0, len(e.pathIDs)-1).Draw(t, "bundleIdPath")]
+				case "huge":
+					info.Id = strings.Repeat("i", 3000)
+				}
 				req := vkit.Sign(info, a.CertPriv)
 				switch pick("signature", "ok", "ok", "ok", "empty", "63-bytes", "65-bytes", "zero") {
 				case "empty":
